@@ -178,7 +178,11 @@ def parsePayload (t : String) : Option Doc :=
   | 'j' :: r => (String.ofList r).toInt?.map Doc.int
   | 'r' :: r => (parseHex (String.ofList r)).map Doc.real
   | 'f' :: r => (parseHex (String.ofList r)).map Doc.real
-  | 's' :: _ :: r => (parseUnits (String.ofList r)).map Doc.str
+  | 's' :: v :: r =>
+    -- forms h..l build an empty string in the ways the API allows (default, moved-from, cleared, JSON ""): the
+    -- units of the token are not its content
+    if v == 'h' || v == 'i' || v == 'j' || v == 'k' || v == 'l' then (parseUnits (String.ofList r)).map (fun _ => Doc.str [])
+    else (parseUnits (String.ofList r)).map Doc.str
   | _ => none
 
 def parseRootOpt (t : String) : Option (Option Nat) :=
